@@ -6,7 +6,7 @@ use crate::elem::FaultKind;
 use crate::rng::{mix, Rng};
 use crate::script::{Garbage, Op, RangeSpec, Scenario, Script, Step, BOUND_EXCL, BOUND_INCL, BOUND_UNB};
 
-pub const DEQUE_NS: [usize; 8] = [0, 1, 2, 3, 4, 5, 6, 8];
+pub const DEQUE_NS: [usize; 9] = [0, 1, 2, 3, 4, 5, 6, 8, 11];
 
 #[derive(Clone, Copy, PartialEq, Eq, Debug)]
 pub enum Family {
@@ -84,7 +84,7 @@ pub fn profile(prop: &str) -> Option<Profile> {
     })
 }
 
-/// (N, start r, size s) for every layout with N in DEQUE_NS: 185 entries.
+/// (N, start r, size s) for every layout with N in DEQUE_NS: 317 entries.
 pub fn layouts() -> Vec<(usize, usize, usize)> {
     let mut v = Vec::new();
     for &n in DEQUE_NS.iter() {
